@@ -16,6 +16,11 @@ MODEL_NOTE = ("FJSPEnv/JSSPEnv modelled per instance over integers (Rl4co/Env/Fj
               "feature tensors (lbs, is_ready, adjacency) are not modelled; processing times are integral so float32 is exact")
 WF_NOTE = ("theorems assume WF: ≥1 job, job ranges contiguous/disjoint inside the unpadded prefix, processing times ≥ 0, "
            "every real operation has ≥ 1 eligible machine (JSSP: exactly 1); the harness evaluates WF on every instance it uses")
+COVER_NOTE = ("input classes driven through the real env at the quick tier: durations 1 … 20000 (schedule horizons beyond "
+              "the INIT_FINISH = 9999 filler of finish_times, event times exactly 9999/9998/10000), unbalanced jobs, unusable "
+              "machines, padded rows, generator instances at default-like and at large processing times, instances read from "
+              "files, mask_no_ops on/off, check_mask and stepwise_reward on/off (not modelled: they must not change "
+              "mask/done/time/schedule, and get_reward(td, actions) must stay −makespan)")
 NO_THM = "no theorem yet: correspondence + spec oracle only"
 
 
@@ -48,7 +53,9 @@ def make_batch(ctx, jssp: bool, B: int) -> List[dict]:
 
 
 def drive(ctx, jssp: bool, mno: bool, insts: List[dict], extra_pad: int = 0, forced=None, n_extra: int = 0):
-    env = jl.make_env(jssp, mno)
+    cm, sw = ctx.rng.random() < 0.3, ctx.rng.random() < 0.3
+    env = jl.make_env(jssp, mno, check_mask=cm, stepwise_reward=sw)
+    ctx.count(f"{tag(jssp)}.check_mask={int(cm)}.stepwise_reward={int(sw)}")
     src = jl.source_td(insts)
     if src is not None:
         # drive the env on the generator's / file reader's own TensorDict (its dtypes and padding)
@@ -67,6 +74,13 @@ def count_dist(ctx, t: str, insts, N, mno, style, ep):
         ctx.count(f"{t}.kind={i['kind']}")
         ctx.count(f"{t}.J={i['J']}.M={i['M']}")
         ctx.count(f"{t}.ops={min(jl.total_ops(i), 12)}")
+        if ep.times[r] and ep.times[r][-1] >= jl.INIT_FINISH:
+            ctx.count(f"{t}.horizon>=INIT_FINISH")
+            fd = ep.done[r].index(1) if 1 in ep.done[r] else len(ep.times[r]) - 1
+            if any(tm >= jl.INIT_FINISH for tm in ep.times[r][:fd]):
+                ctx.count(f"{t}.clock>=INIT_FINISH-while-unfinished")
+        if jl.INIT_FINISH in ep.times[r]:
+            ctx.count(f"{t}.event-time==INIT_FINISH")
         if jl.total_ops(i) < N:
             ctx.count(f"{t}.padded-row")
         acts, tms, dn = ep.actions[r], ep.times[r], ep.done[r]
@@ -90,7 +104,7 @@ def count_dist(ctx, t: str, insts, N, mno, style, ep):
 
 def spec_verdicts(ctx, env, insts, N, ep):
     """Lean Spec oracle on the REAL final tensors of every row"""
-    rew = jl.real_reward(env, ep.td)
+    rew = jl.real_reward(env, ep.td, ep.actions)
     lines = []
     for r, i in enumerate(insts):
         fin = ep.final(r)
@@ -304,7 +318,7 @@ def check_batch(ctx, jssp: bool):
         if ep.error or ep.empty_mask_rows:
             broken_episode(ctx, t, jssp, mno, insts, N, ep, "C04 batched run")
             continue
-        rew = jl.real_reward(env, ep.td)
+        rew = jl.real_reward(env, ep.td, ep.actions)
         # (a) every batched row equals the SOLO model run of the same instance and actions
         replies = ctx.driver.ask_many([jl.line_episode(i, N, mno, jssp, ep.actions[r]) for r, i in enumerate(insts)])
         for r, i in enumerate(insts):
@@ -346,7 +360,7 @@ def check_batch(ctx, jssp: bool):
             if cut(f1, Ns) != cut(fb_, N):
                 ctx.violation(f"{t}:batch-dependence:schedule", "final schedule differs between solo and batched (padded) run",
                               {**wit, "solo": f1, "batched": fb_})
-            rs = jl.real_reward(env, ep1.td)[0]
+            rs = jl.real_reward(env, ep1.td, ep1.actions)[0]
             if rs != rew[r]:
                 ctx.violation(f"{t}:batch-dependence:reward", "reward differs between the solo run and the batched (padded) run",
                               {**wit, "solo_reward": rs, "batched_reward": rew[r]})
@@ -363,7 +377,7 @@ def tiny_instance(ctx, jssp: bool) -> dict:
     max_ops = 3 if J <= 2 else 2
     if ctx.tier != "thorough" and J == 3:
         max_ops = ctx.rng.choice([1, 2])
-    kind = ctx.rng.choice(["random", "ties", "long", "unit"])
+    kind = ctx.rng.choice(["random", "ties", "long", "unit", "huge", "sentinel"])
     i = jl.gen_instance(ctx.rng, J, M, kind, jssp, max_ops)
     return i
 
@@ -441,11 +455,24 @@ def check_completeness(ctx, jssp: bool):
                           {"inst": inst, "best_reward": best1, "non_delay_optimum": optnd})
         if best1 != -opt:
             ctx.count(f"{t}.instances-where-no-wait-mask-hides-the-optimum")
-            ctx.violation(f"{t}:no-wait-mask-hides-optimum",
-                          "mask_no_ops=True (the default): every schedule reachable through the mask is non-delay and the "
-                          "optimal schedule is not among them, so the best reachable reward is below the brute-force optimum",
-                          {"inst": inst, "best_reward_through_mask": best1, "optimum_makespan": opt,
-                           "optimal_schedule_needs_wait": True, "reached_with_mask_no_ops_false": best == -opt})
+            documented = set(finals1) == nd_keys and best1 == -optnd and optnd > opt and best == -opt
+            if documented:
+                # the one documented cause: the reachable set is EXACTLY the non-delay class (so the mask hides nothing
+                # of that class), its optimum is reached, and the true optimum — reached with mask_no_ops=False — is
+                # simply not a non-delay schedule
+                ctx.violation(f"{t}:no-wait-mask-hides-optimum:reachable-set-is-exactly-the-non-delay-class",
+                              "mask_no_ops=True (the default): every schedule reachable through the mask is non-delay and the "
+                              "optimal schedule is not among them, so the best reachable reward is below the brute-force optimum",
+                              {"inst": inst, "best_reward_through_mask": best1, "optimum_makespan": opt,
+                               "non_delay_optimum": optnd, "reached_with_mask_no_ops_false": True})
+            else:
+                ctx.violation(f"{t}:optimum-unreachable:no-wait:other-cause",
+                              "mask_no_ops=True: the best reward through the real mask is below the optimum for a reason other "
+                              "than the non-delay restriction (reachable set ≠ non-delay class, or its optimum is missed, or "
+                              "the optimum is missed even with waiting allowed)",
+                              {"inst": inst, "best_reward_through_mask": best1, "optimum_makespan": opt,
+                               "non_delay_optimum": optnd, "best_with_wait_allowed": best,
+                               "reachable_equals_non_delay": set(finals1) == nd_keys})
         ctx.case((t, repr(inst), "bfs"))
         ctx.sample({"env": t, "inst": inst, "semi_active": len(semi_keys), "non_delay": len(nd_keys), "optimum": opt,
                     "non_delay_optimum": optnd, "reachable_wait_allowed": len(finals), "reachable_no_wait": len(finals1)})
@@ -463,7 +490,7 @@ def _reg(prop, jssp, fn, module, theorems, extra=()):
     ths = theorems if have else []
     register(Unit(prop, tag(jssp), (lambda ctx, _fn=fn, _j=jssp: _fn(ctx, _j)), drivers=["drv_fjsp"],
                   lean_modules=[module] if have else [], theorems=ths,
-                  assumptions=[MODEL_NOTE, WF_NOTE, *extra] + ([] if ths else [NO_THM])))
+                  assumptions=[MODEL_NOTE, WF_NOTE, COVER_NOTE, *extra] + ([] if ths else [NO_THM])))
 
 
 def _ns(j):
